@@ -229,7 +229,7 @@ def wiring_fn(fx, name, pred, depth=2):
             return f
         nxt = None
         for _bi, t in b.normal_calls():
-            g = fx.fn(t.get("resolved") or t.get("callee") or "")
+            g = fx.callee_fn(t)
             if g is None or g["kind"] not in ("fn", "assoc_fn") or g.get("is_async") or not t["args"]:
                 continue
             os_ = b.origins(t["args"][0])
@@ -247,7 +247,7 @@ def with_forwarded(fx, f, depth=1):
     if depth <= 0:
         return out
     for _bi, t in Body(f).normal_calls():
-        g = fx.fn(t.get("resolved") or t.get("callee") or "")
+        g = fx.callee_fn(t)
         if g is not None and g["kind"] in ("fn", "assoc_fn") and not g.get("is_async") and g not in out:
             out.extend(x for x in with_forwarded(fx, g, depth - 1) if x not in out)
     return out
